@@ -429,6 +429,8 @@ Definition delete_code (s : topo) (pods : list pod) (q : quota) : Z :=
            | Some cs =>
                if nonempty cs then 4
                else if existsb (fun p => fst p =? q_name q) pods then 5
+               (* commit 4aec535: pods bound through the quota's namespaces count as well *)
+               else if has_pods pods (q_name q) (ann_ns q) then 6
                else 0
            end
        end.
